@@ -48,7 +48,12 @@ def cases(tier, seed):
         cs.append({'prog_seed': seed * 1000003 + 130000 + i, 'seed': seed * 7919 + i,
                    'backend': backend, 'precision': ['uniform8', 'uniform', 'mixed'][(i // 5) % 3],
                    'dil': [None, None, None, 'axis0', 'axis1'][(i // 3) % 5],
-                   'nobias': (i // 7) % 4 == 0})
+                   'nobias': (i // 7) % 4 == 0,
+                   # drive some pre-activations beyond the PACT clip (saturation of the requantiser)
+                   'saturate': (i // 2) % 3 == 0,
+                   # weights change after the last forward (fine-tune step / checkpoint load) and
+                   # integerize_arch is called without a new forward
+                   'stale': (i // 4) % 3 == 1})
     return cs
 
 
@@ -148,6 +153,19 @@ def run_case(case, ctx):
     except Exception as e:
         ctx.skip('mps: ' + type(e).__name__ + ': ' + str(e)[:80])
         return
+    if case.get('saturate'):
+        # large biases / weights on a few channels of every searchable layer
+        from plinio.methods.mps.nn import MPSConv2d, MPSLinear
+        g = torch.Generator().manual_seed(case['seed'] + 7)
+        with torch.no_grad():
+            for _n, L in mpslib.mps_layers(mps):
+                if isinstance(L, (MPSConv2d, MPSLinear)):
+                    k = torch.rand(L.weight.shape[0], generator=g) < 0.4
+                    if L.bias is not None:
+                        L.bias[k] += 10.0
+                    shape = [-1] + [1] * (L.weight.dim() - 1)
+                    L.weight.mul_(torch.where(k, 6.0, 1.0).reshape(shape))
+        ctx.cls('saturate')
     mps.eval()
     if prec == 'mixed':
         mpslib.assign_coefficients(mps, rng)
@@ -162,6 +180,15 @@ def run_case(case, ctx):
     except Exception as e:
         ctx.skip('export: ' + type(e).__name__ + ': ' + str(e)[:80])
         return
+    if case.get('stale'):
+        # the weights move after the last forward; no forward before integerize_arch
+        g = torch.Generator().manual_seed(case['seed'] + 13)
+        with torch.no_grad():
+            for n_, p_ in E.named_parameters():
+                if n_.endswith('.weight'):
+                    p_.mul_(1.0 + 0.8 * torch.rand(p_.shape[0], generator=g).reshape(
+                        [-1] + [1] * (p_.dim() - 1)))
+        ctx.cls('weights-changed-after-last-forward')
     backend = Backend.MAUPITI if case['backend'] == 'maupiti' else Backend.MATCH
     kwargs = {}
     if case['backend'] == 'match-opts':
